@@ -1,7 +1,11 @@
 import Tahoe.Base.DrvUtil
-import Tahoe.Spans.Model
-/-! Driver for C37: `spans op op …` where op ∈ a:S:L (add) r:S:L (remove) c:S:L (contains) l (len)
-    i:S+L,S+L,… (self := self & other)  d (dump).  Output: one field per op joined by `;`. -/
+import Tahoe.Spans.DataModel
+/-! Driver for C37.
+    `spans op op …` where op ∈ a:S:L (add) r:S:L (remove) c:S:L (contains) l (len)
+    i:S+L,S+L,… (self := self & other)  u:… (self := self + other)  m:… (self := self - other)  d (dump).
+    `dspans op op …` where op ∈ a:OFF:HEX (add) r:S:L (remove) g:S:L (get) p:S:L (pop) l (len)
+    s (get_spans) d (dump); a chunk list prints as OFF=HEX,OFF=HEX,… (`-` if empty), `None` as N.
+    Output: one field per op joined by `;`. -/
 open Tahoe.Drv Tahoe.Spans
 
 def showSpans (s : List Span) : String :=
@@ -21,6 +25,8 @@ def stepOp (s : List Span) (op : String) : Option (List Span × String) :=
   | ["l"] => some (s, toString (len s))
   | ["d"] => some (s, showSpans s)
   | ["i", o] => do let s' := inter s (← parseSpans o); pure (s', showSpans s')
+  | ["u", o] => do let s' := addAll s (← parseSpans o); pure (s', showSpans s')
+  | ["m", o] => do let s' := removeAll s (← parseSpans o); pure (s', showSpans s')
   | _ => none
 
 def runOps (s : List Span) (acc : List String) : List String → Option (List String)
@@ -29,8 +35,37 @@ def runOps (s : List Span) (acc : List String) : List String → Option (List St
     | some (s', out) => runOps s' (out :: acc) rest
     | none => none
 
+def showChunks (s : List Chunk) : String :=
+  if s.isEmpty then "-" else ",".intercalate (s.map (fun c => s!"{c.1}={hexOfBytes c.2}"))
+
+def showOpt : Option (List UInt8) → String
+  | none => "N"
+  | some b => hexOfBytes b
+
+def stepDOp (s : List Chunk) (op : String) : Option (List Chunk × String) :=
+  match op.splitOn ":" with
+  | ["a", a, h] => do let s' := dadd s (← a.toNat?) (← bytesOfHex h); pure (s', showChunks s')
+  | ["r", a, l] => do let s' := dremove (← a.toNat?) (← l.toNat?) s; pure (s', showChunks s')
+  | ["g", a, l] => do pure (s, showOpt (dget (← a.toNat?) (← l.toNat?) s))
+  | ["p", a, l] => do
+      let r := dpop s (← a.toNat?) (← l.toNat?)
+      pure (r.2, showOpt r.1 ++ "/" ++ showChunks r.2)
+  | ["l"] => some (s, toString (dlen s))
+  | ["s"] => some (s, showSpans (getSpans s))
+  | ["d"] => some (s, showChunks s)
+  | _ => none
+
+def runDOps (s : List Chunk) (acc : List String) : List String → Option (List String)
+  | [] => some acc.reverse
+  | op :: rest => match stepDOp s op with
+    | some (s', out) => runDOps s' (out :: acc) rest
+    | none => none
+
 def handle : List String → String
   | "spans" :: ops => match runOps [] [] ops with
+    | some outs => ";".intercalate outs
+    | none => "bad-op"
+  | "dspans" :: ops => match runDOps [] [] ops with
     | some outs => ";".intercalate outs
     | none => "bad-op"
   | _ => "bad-op"
